@@ -100,7 +100,7 @@ general and `2^54` in the irregular case (`c = 2^52`). -/
 def ExpOk (q : Int) (irr : Bool) : Prop :=
   let k := kOf q irr
   let h := hOf q k
-  ∃ row, pow10CeilSigAt (-k) = some row ∧
+  ∃ row, pow10CeilSigAt (-k) = some row ∧ row.1 < 2 ^ 64 ∧ row.2 < 2 ^ 64 ∧
     -324 ≤ k ∧ k ≤ 292 ∧ 1 ≤ h ∧ h ≤ 4 ∧
     2 ^ 128 ≤ 2 ^ h.toNat * (row.1 * 2 ^ 64 + row.2) ∧
     (if irr then 2 ^ 54 else 2 ^ 55) * 2 ^ h.toNat * (row.1 * 2 ^ 64 + row.2) ≤ (4 * 10 ^ 17 - 12) * 2 ^ 128
@@ -111,6 +111,7 @@ def expOkB (q : Int) (irr : Bool) : Bool :=
   match pow10CeilSigAt (-k) with
   | none => false
   | some row =>
+    decide (row.1 < 2 ^ 64) && decide (row.2 < 2 ^ 64) &&
     decide (-324 ≤ k) && decide (k ≤ 292) && decide (1 ≤ h) && decide (h ≤ 4) &&
     decide (2 ^ 128 ≤ 2 ^ h.toNat * (row.1 * 2 ^ 64 + row.2)) &&
     decide ((if irr then 2 ^ 54 else 2 ^ 55) * 2 ^ h.toNat * (row.1 * 2 ^ 64 + row.2) ≤ (4 * 10 ^ 17 - 12) * 2 ^ 128)
@@ -122,7 +123,7 @@ theorem expOkB_sound (q : Int) (irr : Bool) (h : expOkB q irr = true) : ExpOk q 
   | none => simp [hrow] at h
   | some row =>
     simp only [hrow, Bool.and_eq_true, decide_eq_true_eq] at h
-    exact ⟨row, hrow, h.1.1.1.1.1, h.1.1.1.1.2, h.1.1.1.2, h.1.1.2, h.1.2, h.2⟩
+    exact ⟨row, hrow, h.1.1.1.1.1.1.1, h.1.1.1.1.1.1.2, h.1.1.1.1.1.2, h.1.1.1.1.2, h.1.1.1.2, h.1.1.2, h.1.2, h.2⟩
 
 /-- both flags at exponent `q` -/
 def ExpBoth (q : Int) : Prop := expOkB q false = true ∧ expOkB q true = true
